@@ -464,6 +464,176 @@ def judge_calibrate(impl, model, spec, shape, resp, g, c):
     return m_ok, s_ok
 
 
+# ---------------------------------------------------------------------------------------------- data arrays of any dtype
+# `calibrate` is handed whatever array an image comes in: raw detector counts (signed / unsigned integers of every
+# width), binary32 and binary64, either byte order, any number of dimensions, any memory layout.  A data case gives the
+# array's elements directly ("data": integers for the integer dtypes, floats / None = NaN for the float dtypes); every
+# element lies on the line at exactly one concentration, (r - c) / g (`calibrate_eq_iff_on_line`), which the driver
+# computes over Rat from the exact value the dtype holds ("c06.calibrate_data").
+INT_DTYPES = ["i1", "i2", "i4", "i8", "u1", "u2", "u4", "u8"]
+DATA_DTYPES = INT_DTYPES + ["f4", "f8"]
+LAYOUTS = ["c", "f", "strided", "reversed", "transposed", "field", "readonly", "offset", "scalar"]
+F4_MAX = 1e30   # binary32 arithmetic is judged only where nothing can overflow: |g|, |c|, |r|, |x| <= 1e30, |g| >= 1e-30
+
+
+def parse_dtype(name):
+    """'<i4', '>f8', 'u1' ... -> np.dtype, or None for anything that is not one of the image dtypes"""
+    if not isinstance(name, str) or len(name) < 2:
+        return None
+    order, base = (name[0], name[1:]) if name[0] in "<>=|" else ("=", name)
+    if base not in DATA_DTYPES:
+        return None
+    return np.dtype(base).newbyteorder(order if order in "<>" else "=")
+
+
+def dtype_values(data, dt):
+    """the case's elements as the dtype holds them: integers clamped to the dtype's range (None -> 0), floats rounded to
+    the dtype (None -> NaN); a plain Python list of ints / floats"""
+    out = []
+    if dt.kind in "iu":
+        info = np.iinfo(dt)
+        for v in data:
+            k = 0 if v is None or v != v or v in (math.inf, -math.inf) else int(round(v))
+            out.append(min(max(k, int(info.min)), int(info.max)))
+    else:
+        for v in data:
+            out.append(math.nan if v is None else float(v))
+    return out
+
+
+def lay_out(a, layout):
+    """the same logical array (shape, dtype, values) in another memory layout"""
+    dt, shape = a.dtype, a.shape
+    if layout == "f":
+        return a.copy(order="F")
+    if layout == "strided":  # every other element of a wider buffer
+        if a.ndim == 0:
+            base = np.zeros(3, dt)
+            base[1] = a
+            return base[1:2].reshape(())
+        base = np.zeros(shape[:-1] + (2 * shape[-1] + 1,), dt)
+        base[..., 1::2] = a
+        return base[..., 1::2]
+    if layout == "reversed" and a.ndim >= 1:  # negative stride
+        return a[::-1].copy()[::-1]
+    if layout == "transposed" and a.ndim >= 2:
+        return a.T.copy(order="C").T
+    if layout == "field":  # a field of a packed structured array (unaligned for every dtype wider than a byte)
+        st = np.dtype({"names": ["pad", "v"], "formats": ["u1", dt], "offsets": [0, 1], "itemsize": 1 + dt.itemsize})
+        base = np.zeros(shape, st)
+        base["v"] = a
+        return base["v"]
+    if layout == "readonly":
+        b = a.copy()
+        b.flags.writeable = False
+        return b
+    if layout == "offset":  # a view into a byte buffer, one byte off alignment
+        buf = np.zeros(a.size * dt.itemsize + 1, "u1")
+        v = buf[1:].view(dt).reshape(shape)
+        v[...] = a
+        return v
+    if layout == "scalar" and a.ndim == 0:  # what indexing an image returns: a NumPy scalar, not an array
+        return a[()]
+    return a.copy(order="C")
+
+
+def build_data(case):
+    """-> (dtype, argument for calibrate, its elements as exact Python numbers in C order) or None (malformed case)"""
+    dt = parse_dtype(case.get("dtype"))
+    shape, data, layout = case.get("shape"), case.get("data"), case.get("layout", "c")
+    if dt is None or not isinstance(data, list) or not isinstance(shape, list) or layout not in LAYOUTS:
+        return None
+    if any(not (v is None or isinstance(v, (int, float))) or isinstance(v, bool) for v in data):
+        return None
+    if any(not isinstance(k, int) or k < 0 for k in shape) or (int(np.prod(shape)) if shape else 1) != len(data):
+        return None
+    vals = dtype_values(data, dt)
+    a = np.array(vals, dtype=dt).reshape(shape)
+    arg = lay_out(a, layout)
+    same_dtype = np.asarray(arg).dtype == dt or (layout == "scalar" and np.asarray(arg).dtype == dt.newbyteorder("="))
+    if np.shape(arg) != tuple(shape) or not same_dtype or not np.array_equal(np.asarray(arg), a, equal_nan=True):
+        raise core.InternalError(f"layout {layout} changed the array")
+    exact = vals if dt.kind in "iu" else a.ravel().astype(np.float64).tolist()
+    return dt, arg, exact
+
+
+def same_value(a, b):
+    """exact equality of two array elements (Python int / float): NaN with NaN, zeros with their sign between floats"""
+    fa, fb = isinstance(a, float), isinstance(b, float)
+    if (fa and a != a) or (fb and b != b):
+        return fa and fb and a != a and b != b
+    if fa and fb and a == 0.0 and b == 0.0:
+        return math.copysign(1.0, a) == math.copysign(1.0, b)
+    if (fa and math.isinf(a)) or (fb and math.isinf(b)):
+        return fa and fb and a == b
+    return Fraction(a) == Fraction(b)
+
+
+def exact_elements(out):
+    """elements of a returned array as exact Python numbers (ints, or floats through binary64); None: not a real array"""
+    out = np.asarray(out)
+    if out.dtype.kind in "iub":
+        return [int(v) for v in out.ravel().tolist()]
+    if out.dtype.kind == "f" and out.dtype.itemsize <= 8:
+        return [float(v) for v in out.ravel().astype(np.float64).tolist()]
+    return None
+
+
+def observe_data(arg_exact, out):
+    """what calibrate returned for a data array: shape, dtype (recorded, never compared), the elements as floats, and
+    whether they are the argument's elements unchanged (exactly: value for value)"""
+    o = np.asarray(out)
+    el = exact_elements(o)
+    if el is None:
+        return {"shape": list(o.shape), "dtype": str(o.dtype), "unsupported-result-dtype": True}
+    return {"shape": list(o.shape), "dtype": o.dtype.str, "data": [fnum(float(v)) if not (isinstance(v, float) and math.isinf(v))
+                                                               else ("inf" if v > 0 else "-inf") for v in el],
+            "unchanged": len(el) == len(arg_exact) and all(same_value(a, b) for a, b in zip(arg_exact, el))}
+
+
+def judge_data(impl, model, spec, shape, g, c, dt, identity):
+    """a data array of dtype `dt`: the identity returns the elements unchanged (exactly); any other line returns (r - c)/g
+    at the precision of the result pewlib computes - binary64 for integer and binary64 data, binary32 for binary32 data
+    (NumPy keeps binary32 under a Python-float line): 4 eps (|x| + |c/g|) covers the conversion of wide integers, the
+    rounding of the line's parameters to the dtype, the subtraction and the division"""
+    if "data" not in impl or impl["shape"] != list(shape):
+        return False, False
+    if identity:
+        return impl["unchanged"], impl["unchanged"]
+    eps, tiny = (2.0 ** -23, 2.0 ** -149) if (dt.kind == "f" and dt.itemsize == 4) else (2.0 ** -52, 2.0 ** -1074)
+
+    def cmp(want):
+        if len(want) != len(impl["data"]):
+            return False
+        for a, b in zip(impl["data"], want):
+            if (a is None) != (b is None):
+                return False
+            if a is not None and (isinstance(a, str) or abs(a - b) > 4 * eps * (abs(b) + abs(c / g)) + tiny):
+                return False
+        return True
+
+    return cmp(model["data"]), cmp(spec["data"])
+
+
+def data_features(dt, layout, shape, exact):
+    f = {"data-dtype:" + dt.base.str[1:], "data-layout:" + layout, f"ndim{len(shape)}",
+         "data-byteorder:" + ("single-byte" if dt.itemsize == 1 else "big" if dt.str[0] == ">" else "little")}
+    f.add("data:integer-counts" if dt.kind in "iu" else "data:binary32" if dt.itemsize == 4 else "data:binary64")
+    if not exact:
+        f.add("empty-array")
+    if dt.kind in "iu" and exact:
+        info = np.iinfo(dt)
+        if int(info.max) in exact or (dt.kind == "i" and int(info.min) in exact):
+            f.add("data:at-dtype-limit")
+        if any(abs(v) > 2 ** 53 for v in exact):
+            f.add("data:integer-beyond-2^53")
+        if any(v < 0 for v in exact):
+            f.add("data:negative-counts")
+    if dt.kind == "f" and any(v != v for v in exact):
+        f.add("nan-data")
+    return f
+
+
 class C06(Prop):
     id = "C06"
     anchored = ["src/pewlib/calibration.py"]
@@ -640,6 +810,98 @@ class C06(Prop):
                            "weighting": rng.choice(BUILTIN), "cw": None}
         return case
 
+    def gen_dtype(self, rng):
+        base = rng.choice(DATA_DTYPES + ["i2", "i4", "u2", "f4"])  # the common image dtypes a little more often
+        return (rng.choice("<>") if np.dtype(base).itemsize > 1 else "|") + base
+
+    def gen_data(self, rng, dtype, size, anchors, lo, hi):
+        """`size` elements for a data array of the given dtype: responses between `lo` and `hi` (log-uniform), the
+        anchors themselves (responses of the standards, the blank), 0, the dtype's limits; NaN for the float dtypes"""
+        dt = parse_dtype(dtype)
+        out = []
+        lo = max(lo, 1e-6)
+        hi = max(hi, 2 * lo)
+        for _ in range(size):
+            r = rng.random()
+            if r < 0.25 and anchors:
+                v = rng.choice(anchors)
+            elif r < 0.33:
+                v = 0.0
+            elif r < 0.4 and dt.kind in "iu":
+                info = np.iinfo(dt)
+                v = rng.choice([int(info.max), int(info.min), int(info.max) - 1, 1, -1 if dt.kind == "i" else 2])
+            elif r < 0.45 and dt.kind == "f":
+                v = None
+            else:
+                v = math.exp(rng.uniform(math.log(lo), math.log(hi)))
+                if dt.kind == "i" and rng.random() < 0.1:
+                    v = -v
+            if dt.kind in "iu":
+                v = dtype_values([v], dt)[0]
+            elif v is not None and dt.itemsize == 4:
+                v = float(np.float32(v)) if abs(v) < 3e38 else None
+            out.append(v)
+        return out
+
+    def gen_cal_data(self, rng, tier):
+        """calibrate on an array as images come: every dtype, byte order, dimension count and memory layout"""
+        dtype = self.gen_dtype(rng)
+        dt = parse_dtype(dtype)
+        shape = rng.choice([[], [], [0], [1], [4], [6], [2, 3], [3, 1], [0, 3], [2, 2, 2], [1, 3, 2], [3, 4]])
+        size = int(np.prod(shape)) if shape else 1
+        layout = rng.choice(LAYOUTS if shape else ["c", "scalar", "scalar", "strided", "field", "readonly", "offset"])
+        kind = rng.choice(["line", "line", "line-f64", "identity", "fitted", "fitted", "few", "near", "counts-fit"])
+        top = float(np.iinfo(dt).max) if dt.kind in "iu" else 10.0 ** rng.uniform(2, 9)
+        case = {"kind": "calibrate", "mode": "line", "shape": shape, "dtype": dtype, "layout": layout}
+        if kind in ("line", "line-f64"):
+            # counts per unit and blank suited to the range of the dtype
+            g = 10.0 ** rng.uniform(-1, max(0.0, min(6.0, math.log10(top) - 1.5)))
+            c = rng.choice([0.0, rng.uniform(0, top / 16), float(rng.randint(1, 100)), -rng.uniform(0, top / 64)])
+            if rng.random() < 0.3:
+                g, c = float(max(1, round(g))), float(round(c))
+                if rng.random() < 0.4:
+                    case["ptype"] = "int"
+            if kind == "line-f64":
+                case["ptype"] = "np.float64"
+            if rng.random() < 0.08:
+                g = -g
+            case.update(g=g, c=c, data=self.gen_data(rng, dtype, size, [c, g + c, 10 * g + c], max(abs(c) / 4, abs(g) / 100), top))
+        elif kind == "near":
+            case.update(g=near_one(rng), c=near_zero(rng, 1.0), data=self.gen_data(rng, dtype, size, [1.0, 2.0], 0.5, top))
+            if rng.random() < 0.3:
+                case["ptype"] = "np.float64"
+        elif kind == "identity":
+            case.update(mode="identity", data=self.gen_data(rng, dtype, size, [1.0], 0.5, top))
+        elif kind == "few":
+            case.update(mode="few", data=self.gen_data(rng, dtype, size, [1.0], 0.5, top),
+                        fit={"rows": rng.choice([[], [[1.0, 2.0]], [[1.0, 2.0], [2.0, None]], [[None, None], [None, 1.0]]]),
+                             "weighting": rng.choice(BUILTIN), "cw": None})
+        else:
+            # a fitted calibration applied to an image whose pixels lie between the blank and the top standard
+            f = self.gen_counts_fit(rng, top) if kind == "counts-fit" or dt.kind in "iu" else self.gen_fit(rng, tier, unit=False)
+            ys = [r[1] for r in f["rows"] if r[0] is not None and r[1] is not None]
+            lo, hi = (min(ys), max(ys)) if ys else (1.0, 100.0)
+            case.update(mode="fitted", fit={"rows": f["rows"], "weighting": f["weighting"], "cw": f["cw"]},
+                        data=self.gen_data(rng, dtype, size, ys, lo / 2, min(2 * hi, top)))
+        return case
+
+    def gen_counts_fit(self, rng, top):
+        """standards measured in raw counts: integer responses below `top`, round concentration levels"""
+        ladder = rng.choice(LADDERS)
+        n = rng.randint(2, len(ladder))
+        xs = sorted(rng.sample(ladder, n))
+        if rng.random() < 0.7:
+            xs[0] = ladder[0]
+        if len(set(xs)) < 2:
+            xs = ladder[:2]
+        blank = float(rng.choice([0, rng.randint(1, 50), rng.randint(50, 2000)]))
+        blank = min(blank, top / 8)
+        g = (top * rng.uniform(0.05, 0.6) - blank) / max(xs)
+        rows = [[float(x), float(max(0, round((g * x + blank) * (1 + rng.gauss(0, rng.choice([0.0, 0.001, 0.03]))))))] for x in xs]
+        if len(rows) >= 3 and rng.random() < 0.3:
+            rows.insert(rng.randint(0, len(rows)), rng.choice([[None, 5.0], [xs[1] / 2, None], [None, None]]))
+        return {"rows": rows, "weighting": rng.choice(BUILTIN), "cw": None}
+
     def gen_session(self, rng, tier):
         """several operations on ONE object, `calibrate` called in between: the line is assigned to the public
         attributes (any line, next to the identity, the identity), refitted on other points (an ordinary ladder, a
@@ -676,7 +938,11 @@ class C06(Prop):
 
     def generate(self, rng, tier):
         r = rng.random()
-        return self.gen_session(rng, tier) if r < 0.06 else self.gen_cal(rng, tier) if r < 0.26 else self.gen_fit(rng, tier)
+        if r < 0.06:
+            return self.gen_session(rng, tier)
+        if r < 0.16:
+            return self.gen_cal_data(rng, tier)
+        return self.gen_cal(rng, tier) if r < 0.30 else self.gen_fit(rng, tier)
 
     def targeted(self, tier):
         for i, c in enumerate(self.targeted_plain(tier)):
@@ -743,6 +1009,29 @@ class C06(Prop):
                 yield {"kind": "calibrate", "mode": "fitted", "shape": [3], "conc": [0.0, 2.5 * sc, 7.0 * sc],
                        "fit": {"rows": rows, "weighting": BUILTIN[k % len(BUILTIN)], "cw": None}}
                 yield {"kind": "fit", "rows": rows, "weighting": BUILTIN[(k + 3) % len(BUILTIN)], "cw": None, "perms": []}
+        # data arrays of every image dtype, both byte orders: raw counts on a line of 40 counts per unit over a blank of
+        # 12, under the identity, the line given as Python floats / np.float64, and the line fitted from standards
+        levels = [0.0, 0.25, 0.5, 1.25, 2.5, 5.0]
+        std = {"rows": [[x, 12.0 + 40.0 * x] for x in levels], "weighting": "1/x", "cw": None}
+        k = 0
+        for base in DATA_DTYPES:
+            for order in ("<>" if np.dtype(base).itemsize > 1 else "|"):
+                counts = [12, 17, 27, 40, 0, 127] if base[0] in "iu" else [12.0, 17.0, 27.0, 40.0, None, 0.5]
+                for mode in ("identity", "float", "np.float64", "fitted", "few"):
+                    shape = [[6], [2, 3], [3, 2, 1], [6], [1, 6]][k % 5]
+                    lay = LAYOUTS[:8][k % 8]
+                    k += 1
+                    c = {"kind": "calibrate", "shape": shape, "dtype": order + base, "layout": lay, "data": counts}
+                    if mode == "identity":
+                        yield {**c, "mode": "identity"}
+                    elif mode == "fitted":
+                        yield {**c, "mode": "fitted", "fit": std}
+                    elif mode == "few":
+                        yield {**c, "mode": "few", "fit": {"rows": [[1.0, 52.0], [None, 3.0]], "weighting": "1/x", "cw": None}}
+                    else:
+                        yield {**c, "mode": "line", "g": 40.0, "c": 12.0, "ptype": mode}
+                yield {"kind": "calibrate", "mode": "line", "g": 40.0, "c": 12.0, "shape": [], "dtype": order + base,
+                       "layout": ["c", "scalar", "strided", "field"][k % 4], "data": counts[1:2]}
         # sessions on one object
         few = {"op": "refit", "rows": [[1.0, 2.0], [2.0, None]], "weighting": "1/x", "cw": None}
         fit = {"op": "refit", "rows": base, "weighting": "1/x", "cw": None}
@@ -936,16 +1225,11 @@ class C06(Prop):
                 f.add("two-usable-rows")
         return f if nontrivial else []
 
-    def eval_cal(self, case, ctx):
+    def build_cal(self, case, ctx, feats):
+        """the Calibration object of a calibrate case -> (cal, g, c, None) or (None, None, None, outcome)"""
         from pewlib.calibration import Calibration
 
-        shape, mode = case["shape"], case["mode"]
-        conc = np.array([nan(v) for v in case["conc"]], dtype=np.float64).reshape(shape)
-        feats = {f"cal:{mode}", f"ndim{len(shape)}"}
-        if conc.size == 0:
-            feats.add("empty-array")
-        if np.isnan(conc).any():
-            feats.add("nan-data")
+        mode = case["mode"]
         with warnings.catch_warnings():
             warnings.simplefilter("ignore")
             if mode == "line":
@@ -965,18 +1249,84 @@ class C06(Prop):
                         cal = Calibration.from_points(pts, weights=wts)
                 except Exception:
                     # the fit itself failed: judge it as a fit case (hypothesis logic lives there)
-                    return self.eval_fit({"kind": "fit", "rows": f["rows"], "weighting": f["weighting"], "cw": f["cw"],
-                                          "perms": []}, ctx)
+                    return None, None, None, self.eval_fit({"kind": "fit", "rows": f["rows"], "weighting": f["weighting"],
+                                                            "cw": f["cw"], "perms": []}, ctx)
         g, c = float(cal.gradient), float(cal.intercept)
         if not (math.isfinite(g) and math.isfinite(c)) or g == 0.0:
-            return outcome({}, {}, {}, hyp=False, features=[], note="degenerate fitted calibration (outside hypothesis)")
+            return None, None, None, outcome({}, {}, {}, hyp=False, features=[],
+                                             note="degenerate fitted calibration (outside hypothesis)")
         if mode in ("identity", "few"):
             feats.add("identity-calibration")
             if not (g == 1.0 and c == 0.0):
-                return outcome({"gradient": g, "intercept": c}, {"gradient": 1.0, "intercept": 0.0},
-                               {"gradient": 1.0, "intercept": 0.0}, features=feats)
+                return None, None, None, outcome({"gradient": g, "intercept": c}, {"gradient": 1.0, "intercept": 0.0},
+                                                 {"gradient": 1.0, "intercept": 0.0}, features=feats)
         if g == 1.0 and c == 0.0:
             feats.add("identity-shortcut")
+        return cal, g, c, None
+
+    def eval_cal_data(self, case, ctx):
+        """calibrate on a data array of any image dtype / byte order / memory layout (see `build_data`)"""
+        built = build_data(case)
+        if built is None or case.get("mode") not in ("line", "identity", "fitted", "few"):
+            return outcome({}, {}, {}, hyp=False, features=[], note="malformed data case (not judged)")
+        dt, arg, exact = built
+        shape, mode, layout = case["shape"], case["mode"], case.get("layout", "c")
+        feats = {f"cal:{mode}"} | data_features(dt, layout, shape, exact)
+        cal, g, c, early = self.build_cal(case, ctx, feats)
+        if early is not None:
+            return early
+        identity = g == 1.0 and c == 0.0
+        int_line = isinstance(cal.gradient, int) or isinstance(cal.intercept, int)
+        if any(isinstance(v, float) and math.isinf(v) for v in exact):
+            return outcome({}, {}, {}, hyp=False, features=[], note="infinite data (outside the quantifier): not judged")
+        rep = ctx.driver.call("c06.calibrate_data", gradient=core.rat(g), intercept=core.rat(c),
+                              responses=[None if (isinstance(v, float) and v != v) else core.rat(v) for v in exact])
+        if not rep["on_line"] or rep["identity"] != identity:
+            raise core.InternalError("driver: the specified concentrations do not lie on the line (contradicts calibrate_eq_iff_on_line)")
+        model = {"shape": list(shape), "data": [qf(v) for v in rep["model"]]}
+        spec = {"shape": list(shape), "data": [qf(v) for v in rep["spec"]]}
+        if not identity:
+            big = [abs(v) for v in [g, c, c / g] + [x for x in exact if x == x] + [x for x in spec["data"] if x is not None]]
+            if dt.kind == "f" and dt.itemsize == 4 and (max(big) > F4_MAX or abs(g) < 1.0 / F4_MAX):
+                return outcome({}, model, spec, undetermined=True, features=feats | {"data:binary32-range-not-judged"},
+                               note="binary32 arithmetic may overflow / underflow: not judged")
+            if int_line and dt.kind in "iu":
+                # a line given as Python ints on integer data: NumPy subtracts in the data's own integer type (wraps
+                # around, or refuses an intercept outside the dtype's range).  Lines from a fit are np.float64 and the
+                # constructor's parameters are typed float: outside the quantifier, recorded only (notes/EC06.md)
+                info = np.iinfo(dt)
+                ci = int(cal.intercept)
+                if not (info.min <= ci <= info.max) or any(not (info.min <= v - ci <= info.max) for v in exact):
+                    return outcome({}, model, spec, hyp=False,
+                                   features=feats | {"int-line-on-int-data:wraps-in-the-data-dtype(recorded only)"},
+                                   note="Python-int line on integer data outside the dtype's range: not judged")
+        try:
+            with np.errstate(all="ignore"), warnings.catch_warnings():
+                warnings.simplefilter("ignore")
+                out = cal.calibrate(arg)
+            impl = observe_data(exact, out)
+        except Exception as e:
+            impl = {"raises": type(e).__name__, "msg": str(e)[:200]}
+        if "raises" in impl:
+            return outcome(impl, model, spec, spec_ok=False, model_ok=False, features=feats)
+        m_ok, s_ok = judge_data(impl, model, spec, shape, g, c, dt, identity)
+        if impl.get("dtype") is not None:
+            feats.add("result-dtype:" + ("same-as-data" if impl["dtype"] == dt.str else impl["dtype"][1:]))
+        return outcome(impl, model, spec, spec_ok=s_ok, model_ok=m_ok, features=feats)
+
+    def eval_cal(self, case, ctx):
+        if "dtype" in case or "data" in case:
+            return self.eval_cal_data(case, ctx)
+        shape, mode = case["shape"], case["mode"]
+        conc = np.array([nan(v) for v in case["conc"]], dtype=np.float64).reshape(shape)
+        feats = {f"cal:{mode}", f"ndim{len(shape)}"}
+        if conc.size == 0:
+            feats.add("empty-array")
+        if np.isnan(conc).any():
+            feats.add("nan-data")
+        cal, g, c, early = self.build_cal(case, ctx, feats)
+        if early is not None:
+            return early
         near = line_class(g, c) == "near-identity"
         if near:
             feats |= {"near-identity", "near-identity:|g-1|" + near_bin(g - 1.0), "near-identity:|c|" + near_bin(c),
@@ -1125,6 +1475,15 @@ class C06(Prop):
                     yield {**case, "steps": steps[:k] + steps[k + 1:]}
                 if case["start"] is not None:
                     yield {**case, "start": None}
+            if "data" in case:
+                if len(case["shape"]) > 1 or (case["shape"] and case["shape"][0] > 1):
+                    for i in range(len(case["data"])):
+                        yield {**case, "shape": [1], "data": case["data"][i:i + 1]}
+                if case.get("layout", "c") != "c":
+                    yield {**case, "layout": "c"}
+                if isinstance(case.get("dtype"), str) and case["dtype"][0] == ">":
+                    yield {**case, "dtype": "<" + case["dtype"][1:]}
+                return
             if len(case["shape"]) > 1 or (case["shape"] and case["shape"][0] > 1):
                 for i in range(len(case["conc"])):
                     yield {**case, "shape": [1], "conc": case["conc"][i:i + 1]}
